@@ -52,6 +52,8 @@ BOUNDS = {
                 'bits (x 0xFF00 for stream 16); Reg2Axi reg_in widths 1,2,3 (all values), 8 and 9 (stream 16; boundary values); composed '
                 'Axi2Reg -> (wire | register) -> Reg2Axi with VitisKernelFSM closing start/done; full closure',
 }
+for k in ('quick', 'thorough'):
+    BOUNDS[k] += '; also adapters added inside a wrapper block that existed and was simulated before'
 
 Q_ALPHA = (0x00, 0x01, 0x02, 0xFF)
 
